@@ -17,6 +17,15 @@ structure Cand where
   pe : Option Nat
 deriving DecidableEq, Repr
 
+/-- the meta data `_chk_close` reads from a candidate (or from the reference input): PixelSpacing is the first two
+    numbers of `geom`, ImageOrientationPatient the rest -/
+def Cand.closeMeta (c : Cand) (key : String) : List Int :=
+  if key == "PixelSpacing" then c.geom.take 2 else if key == "ImageOrientationPatient" then c.geom.drop 2 else []
+
+/-- the meta data `_chk_equal` reads: Rows and Columns -/
+def Cand.eqMeta (c : Cand) (key : String) : Nat :=
+  if key == "Rows" then c.rows else if key == "Columns" then c.cols else 0
+
 /-- the tuple `add_dcm` records in `_sorting_tuples` -/
 def tupleOf (f : F) : Int × Int × Int := (f.v, f.t, f.p)
 
